@@ -144,6 +144,10 @@ def spline(potential_forms, potential_form_builder):
   pot2 = pform.next._replace(next = None)
 
   allowed_spline_types = [s.spline_keyword for s in spline_factories]
+  if not hasattr(pot2, "potential_form"):
+    raise ConfigurationException("spline modifier only accepts a spline type ({}) for middle potential form. The modifier '{}' was found instead".format(
+      ",".join(["'{}'".format(t) for t in allowed_spline_types]),
+      pot2.modifier))
   if not pot2.potential_form in allowed_spline_types:
     allowed_spline_types_str = ["'{}'".format(t) for t in allowed_spline_types]
     allowed_spline_types_str = ",".join(allowed_spline_types_str)
@@ -187,9 +191,9 @@ def spline(potential_forms, potential_form_builder):
   spline_factory = [s for s in spline_factories if s.spline_keyword == pot2.potential_form ][0]
 
   logger.debug("spline modifier: connecting '{}' with {} to '{}' in range {} to {}".format(
-    pot1.potential_form,
+    getattr(pot1, "potential_form", getattr(pot1, "modifier", None)),
     pot2.potential_form,
-    pot2.potential_form,
+    getattr(pot3, "potential_form", getattr(pot3, "modifier", None)),
     detach_point, attach_point))
 
   # Now build the spline object
